@@ -20,7 +20,11 @@ Main results
   two's complement byte `d mod 256`.  `C03_pcr_label_in_range`, `C03_pcr_expr_in_range`: the same without the ORG
   hypothesis, `d` being the signed 16-bit distance.
 * `C03_pcr_org_counterexample_fixed` — `S LEAX T,PCR / ORG $CB / T NOP` (and the older `ORG $1000` witness) is a
-  diagnostic now; `C03_pcr_org_example`: an ORG in between with the target in range is accepted and correct.
+  diagnostic now; `C03_pcr_org_example_fixed` (batch 5): so is an ORG in between with the target in range — an ORG after
+  the first label or byte is rejected (`orgOK`), no accepted program has an ORG between a PCR statement and its target.
+* batch 4: `number − label,PCR` always takes the 16-bit form (`C03_pcr_minus_label_16bit`;
+  `C03_pcr_reversed_minus_finding_fixed`, `C03_b3_example_fixed`); the `c − label` cases of `Dist8` / `Target8` under
+  `exprForces = false` are vacuous now, `C03_pcr_expr_field` (either width) still covers `c − label`.
 * `C03_pcr_plus_negative_fixed` — (batch B3, formerly `C03_pcr_plus_negative_finding`) `L+N,PCR` with `N` negative below
   `−address(L)` aims at `(address + N) mod 65536` now.
 * batch B3: a PCR operand is recognised by `pkg.choices ≠ []` (not `needsRes`, which the label offset of a pointer register
@@ -318,26 +322,35 @@ theorem C03_pcr_expr_field {fs : Files} {lines : List Str} {a : Assembly} (h : a
   have hop' : s.operand = s4.operand := pre.same.2.2.2.2
   have hadd4 : s4.pkg.additional = .expr l r op m true :=
     pre.left pre.needs (.expr l r op m true) (by rw [← hop']; exact hl)
-  have hf : exprForces s4.pkg.additional = false := by
-    rw [hadd4]
-    show (!(op == '+' || op == '-') || !((if l.isAddress = true then r else l).isNumeric)) = false
-    rw [hoth]
-    rcases hop with rfl | rfl <;> rfl
+  -- batch 4: `number - label` is forced to the 16-bit form (`exprForces = true`), so the target is taken from
+  -- `fixRel_target_expr_pm`, which needs the shape of the expression only
   obtain ⟨target, htgt, hfield⟩ := st.pcr_field hs pre
-  obtain ⟨b', t', y, hb', ht', hy, htg⟩ := pre.target htgt hf
-  rw [hadd4] at hb'
-  have hb'' : (if l.isAddress = true then l.int? else r.int?) = some b' := hb'
-  rw [hb] at hb''
-  have : b = b' := Option.some.inj hb''
-  subst this
+  have hb4 : relIndex s4.pkg.additional = some b := by rw [hadd4]; exact hb
+  obtain ⟨y, hy', _, hcase⟩ :=
+    fixRel_target_expr_pm pre.idx hadd4 (pre.lr _ _ _ _ hadd4) hop hoth hb4 htgt
+  obtain ⟨t', ht', hy⟩ := st.addrIntOf4_some hy'
   rw [ht] at ht'; cases ht'
-  rw [hadd4] at htg
-  rcases htg with ⟨he, _⟩ | ⟨l', r', op', m', k', hk', mk', nk', hexp, hoth', hcase⟩
-  · simp [Value.isAddrExpr] at he
-  · cases hexp
-    rw [hoth] at hoth'
-    cases hoth'
-    exact ⟨y, target, hy, hfield, hcase⟩
+  exact ⟨y, target, hy, hfield, hcase⟩
+
+/-- **batch 4: `number − label,PCR` always takes the 16-bit form** (`exprForces`, third disjunct: the operand denotes
+`c − address`, nowhere near the label, so the size loop does not estimate it).  For every accepted program, a PCR
+statement whose resolved offset is `l − r` with the label on the RIGHT carries the 16-bit post byte. -/
+theorem C03_pcr_minus_label_16bit {fs : Files} {lines : List Str} {a : Assembly} (h : assemble fs lines = .ok a)
+    {i : Nat} {l r : Value} {m : Mode} {s : Stmt} (hs : a.stmts[i]? = some s) (hc : s.pkg.choices ≠ [])
+    (hl : s.operand.left = .val (.expr l r '-' m true)) (hr : r.isAddress = true) : s.pcrHint = 4 := by
+  obtain ⟨st⟩ := assemble_stages h
+  obtain ⟨s3, s4, pre⟩ := st.pcr_pre hs hc
+  have hop' : s.operand = s4.operand := pre.same.2.2.2.2
+  have hadd4 : s4.pkg.additional = .expr l r '-' m true :=
+    pre.left pre.needs (.expr l r '-' m true) (by rw [← hop']; exact hl)
+  obtain ⟨pb, _, h2 | h4⟩ := st.pcr_postbyte pre
+  · exfalso
+    obtain ⟨b, _, hf, _⟩ := st.pcr8_dist hs h2.1 pre
+    rw [hadd4] at hf
+    have := exprForces_false_minus hf
+    rw [hr] at this
+    cases this
+  · exact h4.1
 
 /-! ### every 8-bit PCR statement of every accepted program (batch B2) -/
 
@@ -549,40 +562,17 @@ theorem C03_pcr_org_counterexample_fixed (fs : Files) :
     assemble fs C03_pcrOrgWitness = .diag ∧ assemble fs C03_pcrOrgWitness200 = .diag :=
   ⟨diagProgram_sound (by decide +kernel) fs, diagProgram_sound (by decide +kernel) fs⟩
 
-/-- an ORG between the statement and an in-range target: accepted, 8-bit form, and the field reaches the target
-(`T` at `$10`, displacement `$10 − 0 − 3 = $0D`); the hypotheses of `C03_pcr_label` / `C03_pcr8_in_range` are
+/-- an ORG between the statement and an in-range target (`T` at `$10`, displacement `$10 − 0 − 3 = $0D`): until batch 5
+this program was accepted on the 8-bit form and showed that the hypotheses of `C03_pcr_label` / `C03_pcr8_in_range` are
 satisfiable across an ORG -/
 def C03_pcrOrgExample : List Str := ["S LEAX T,PCR\n", " ORG $10\n", "T NOP\n"].map String.toList
 
-private def pcrOrgCheck (a : Assembly) : Bool :=
-  pcrIs a 0 2 3 0 [0x30, 0x8C, 0x0D] &&
-  (match a.stmts[0]?, a.stmts[1]?, a.stmts[2]? with
-   | some s, some o, some t =>
-     (match s.operand.left with | .val (.address 2 _) => true | _ => false) && o.row.mnemonic == "ORG" &&
-       addrNat t == some 16
-   | _, _, _ => false)
-
-theorem C03_pcr_org_example :
-    ∃ a s o t m, assemble [] C03_pcrOrgExample = .ok a ∧ a.stmts[0]? = some s ∧ a.stmts[1]? = some o ∧
-      a.stmts[2]? = some t ∧ o.row.mnemonic = "ORG" ∧
-      s.pkg.choices ≠ [] ∧ s.operand.left = .val (.address 2 m) ∧ s.pcrHint = 2 ∧ addrNat s = some 0 ∧
-      addrNat t = some 16 ∧ stmtBytes s = some [0x30, 0x8C, 0x0D] ∧ PcrField s t := by
-  obtain ⟨a, ha, hc⟩ := checkProgram_sound (lines := C03_pcrOrgExample) (check := pcrOrgCheck) (by decide +kernel) []
-  unfold pcrOrgCheck at hc
-  simp only [Bool.and_eq_true] at hc
-  obtain ⟨h1, h2⟩ := hc
-  obtain ⟨s, hs, hn, hh, hsz, hx, hb⟩ := pcrIs_spec h1
-  rw [hs] at h2
-  split at h2
-  · rename_i s' o t hs' ho ht
-    cases hs'
-    simp only [Bool.and_eq_true, beq_iff_eq] at h2
-    obtain ⟨⟨h3, h4⟩, h5⟩ := h2
-    split at h3
-    · rename_i m hl
-      exact ⟨a, s, o, t, m, ha, hs, ho, ht, h4, hn, hl, hh, hx, h5, hb, C03_pcr_label ha hs hn hl ht⟩
-    · cases h3
-  · cases h2
+/-- STATEMENT CHANGED in batch 5 (was `C03_pcr_org_example`: accepted, `30 8C 0D`, `PcrField s t`): an ORG after the
+first label / the first byte of the program is rejected now (`orgOK`, fix f9c374f: "ORG must come before the first label
+and the first byte"), so the program is a diagnostic, whatever the host files are; no accepted program has an ORG
+between a PCR statement and its target any more (the statement emits bytes, the target carries a label). -/
+theorem C03_pcr_org_example_fixed (fs : Files) : assemble fs C03_pcrOrgExample = .diag :=
+  diagProgram_sound (by decide +kernel) fs
 
 /-! ### REPAIRED (batch B3): `label + N,PCR` with a negative `N` below `−address(label)` -/
 
@@ -682,9 +672,9 @@ theorem C03_label_offset_postbyte {fs : Files} {lines : List Str} {a : Assembly}
   exact st.abs_postbyte hs hn hc
 
 /-- batch B3 in one program (`ORG $20`, `N EQU -40`): `L+N,PCR` with a negative `N` (`$D5`: aims at `$FFF8 = L − 40`),
-`5-L,PCR` (`$BF`: aims at `$FFE5 = 5 − L`), `N+L,PCR` (the label on the right of `+`: same target as `L+N`), all on the
-8-bit form; and the label offsets `L+N,X` (field `FFF8`), `L,Y` (field `0020`), `[L-1,U]` (field `001F`): `needsRes`
-without choices, four bytes.  Replayed on /tmp/wt-b3n: same bytes. -/
+`5-L,PCR` (aims at `$FFE5 = 5 − L`; batch 4: on the 16-bit form, `FF BE`), `N+L,PCR` (the label on the right of `+`: same
+target as `L+N`), on the 8-bit form; and the label offsets `L+N,X` (field `FFF8`), `L,Y` (field `0020`), `[L-1,U]` (field
+`001F`): `needsRes` without choices, four bytes. -/
 def C03_b3Witness : List Str :=
   [" ORG $20\n", "N EQU -40\n", "L LEAX L+N,PCR\n", " LEAX 5-L,PCR\n", " LDA L+N,X\n", " LDB L,Y\n", " LEAX N+L,PCR\n",
    " LDD [L-1,U]\n"].map String.toList
@@ -696,34 +686,39 @@ private def absIs (a : Assembly) (i size addr : Nat) (bytes : Bytes) : Bool :=
       stmtBytes s == some bytes
   | none => false
 
-theorem C03_b3_example :
+/-- STATEMENT CHANGED in batch 4 (was `C03_b3_example`: `5-L,PCR` on the 8-bit form `30 8C BF` at `$23`, the following
+statements at `$26`, `$2A`, `$2E` (`30 8C C7`), `$31`): `number − label,PCR` takes the 16-bit form now, `30 8D FF BE`
+(`$FFE5 − $27`), and everything after it lies one byte higher. -/
+theorem C03_b3_example_fixed :
     ∃ a, assemble [] C03_b3Witness = .ok a ∧
-      pcrIs a 2 2 3 0x20 [0x30, 0x8C, 0xD5] = true ∧ pcrIs a 3 2 3 0x23 [0x30, 0x8C, 0xBF] = true ∧
-      absIs a 4 4 0x26 [0xA6, 0x89, 0xFF, 0xF8] = true ∧ absIs a 5 4 0x2A [0xE6, 0xA9, 0x00, 0x20] = true ∧
-      pcrIs a 6 2 3 0x2E [0x30, 0x8C, 0xC7] = true ∧ absIs a 7 4 0x31 [0xEC, 0xD9, 0x00, 0x1F] = true := by
+      pcrIs a 2 2 3 0x20 [0x30, 0x8C, 0xD5] = true ∧ pcrIs a 3 4 4 0x23 [0x30, 0x8D, 0xFF, 0xBE] = true ∧
+      absIs a 4 4 0x27 [0xA6, 0x89, 0xFF, 0xF8] = true ∧ absIs a 5 4 0x2B [0xE6, 0xA9, 0x00, 0x20] = true ∧
+      pcrIs a 6 2 3 0x2F [0x30, 0x8C, 0xC6] = true ∧ absIs a 7 4 0x32 [0xEC, 0xD9, 0x00, 0x1F] = true := by
   obtain ⟨a, ha, hc⟩ := checkProgram_sound (lines := C03_b3Witness)
-    (check := fun a => pcrIs a 2 2 3 0x20 [0x30, 0x8C, 0xD5] && pcrIs a 3 2 3 0x23 [0x30, 0x8C, 0xBF] &&
-      absIs a 4 4 0x26 [0xA6, 0x89, 0xFF, 0xF8] && absIs a 5 4 0x2A [0xE6, 0xA9, 0x00, 0x20] &&
-      pcrIs a 6 2 3 0x2E [0x30, 0x8C, 0xC7] && absIs a 7 4 0x31 [0xEC, 0xD9, 0x00, 0x1F]) (by decide +kernel) []
+    (check := fun a => pcrIs a 2 2 3 0x20 [0x30, 0x8C, 0xD5] && pcrIs a 3 4 4 0x23 [0x30, 0x8D, 0xFF, 0xBE] &&
+      absIs a 4 4 0x27 [0xA6, 0x89, 0xFF, 0xF8] && absIs a 5 4 0x2B [0xE6, 0xA9, 0x00, 0x20] &&
+      pcrIs a 6 2 3 0x2F [0x30, 0x8C, 0xC6] && absIs a 7 4 0x32 [0xEC, 0xD9, 0x00, 0x1F]) (by decide +kernel) []
   simp only [Bool.and_eq_true] at hc
   obtain ⟨⟨⟨⟨⟨h1, h2⟩, h3⟩, h4⟩, h5⟩, h6⟩ := hc
   exact ⟨a, ha, h1, h2, h3, h4, h5, h6⟩
 
-/-! ### finding (batch B3): `number − label,PCR` is SIZED as if it were `label ± number` -/
+/-! ### REPAIRED (batch 4; finding of batch B3): `number − label,PCR` was SIZED as if it were `label ± number` -/
 
-/-- `A LEAX 5-A,PCR` at `$1000`: the operand denotes `5 − $1000 ≡ $F005`, `$E002` bytes away, which the 16-bit PCR form
-encodes; but the size loop (`exprForces = false`, `exprExtra = 5`) estimates the distance as that of `A ± 5`, settles on the
-8-bit form, and the range check of `fix_addresses` then rejects the program ("out of range of the 8-bit offset").  A false
-rejection, never a wrong byte (`C03_pcr_field_target`); with a constant above 127 (`$2000-A`: `exprExtra = $2000`) or a
-product (`2*A`) the 16-bit form is taken and the program is accepted.  True of the model AND of /tmp/wt-b3n (found by the
-relocation sub-agent, replayed: same outcomes and bytes). -/
-theorem C03_pcr_reversed_minus_finding (fs : Files) :
-    assemble fs ([" ORG $1000\n", "A LEAX 5-A,PCR\n"].map String.toList) = .diag ∧
+/-- `A LEAX 5-A,PCR` at `$1000`: the operand denotes `5 − $1000 ≡ $F005`, `$E001` bytes from the end of the statement,
+which the 16-bit PCR form encodes.  Until batch 4 the size loop (`exprForces = false`, `exprExtra = 5`) estimated the
+distance as that of `A ± 5`, settled on the 8-bit form, and the range check of `fix_addresses` rejected the program (a
+false rejection; theorem `C03_pcr_reversed_minus_finding`, first conjunct `= .diag`).
+STATEMENT CHANGED in batch 4: `exprForces` has the disjunct `op == '-' && r.isAddress`, so `number − label` takes the
+16-bit form at once (`C03_pcr_minus_label_16bit`) and the program is accepted, `30 8D E0 01`; the other two programs
+(`$2000-A`, `2*A`) are accepted as before, same bytes. -/
+theorem C03_pcr_reversed_minus_finding_fixed :
+    (∃ a, assemble [] ([" ORG $1000\n", "A LEAX 5-A,PCR\n"].map String.toList) = .ok a ∧
+      pcrIs a 1 4 4 0x1000 [0x30, 0x8D, 0xE0, 0x01] = true) ∧
     (∃ a, assemble [] ([" ORG $1000\n", "A LEAX $2000-A,PCR\n"].map String.toList) = .ok a ∧
       pcrIs a 1 4 4 0x1000 [0x30, 0x8D, 0xFF, 0xFC] = true) ∧
     (∃ a, assemble [] ([" ORG $1000\n", "A LEAX 2*A,PCR\n"].map String.toList) = .ok a ∧
       pcrIs a 1 4 4 0x1000 [0x30, 0x8D, 0x0F, 0xFC] = true) :=
-  ⟨diagProgram_sound (by decide +kernel) fs,
+  ⟨checkProgram_sound (check := fun a => pcrIs a 1 4 4 0x1000 [0x30, 0x8D, 0xE0, 0x01]) (by decide +kernel) [],
    checkProgram_sound (check := fun a => pcrIs a 1 4 4 0x1000 [0x30, 0x8D, 0xFF, 0xFC]) (by decide +kernel) [],
    checkProgram_sound (check := fun a => pcrIs a 1 4 4 0x1000 [0x30, 0x8D, 0x0F, 0xFC]) (by decide +kernel) []⟩
 
